@@ -241,6 +241,12 @@ func (c *Conn) Close() error {
 	return nil
 }
 
+// CloseWrite ends this side's outgoing stream only (a TCP half-close): the peer reads EOF once it has drained
+// what was written, while this side can still be written to.
+//
+//go:norace
+func (c *Conn) CloseWrite() { c.Out.wclose = true }
+
 // Reset makes both directions fail at once (harness fault).
 //
 //go:norace
